@@ -16,6 +16,11 @@ REPLAY_DIR = os.path.join(VERIF, "replays")
 FINDINGS_FILE = os.path.join(VERIF, "known_findings.json")
 
 
+def _safe(x):
+    from .common import safe_repr
+    return safe_repr(x)
+
+
 def jsonable(x):
     try:
         json.dumps(x)
@@ -25,7 +30,8 @@ def jsonable(x):
             return {str(k): jsonable(v) for k, v in x.items()}
         if isinstance(x, (list, tuple)):
             return [jsonable(v) for v in x]
-        return repr(x)
+        from .common import safe_repr
+        return safe_repr(x)
 
 
 class Ctx:
@@ -187,7 +193,7 @@ def finish(ctx, level="proof", checker_cmd="lake build + #print axioms", trusted
                        "broken_obligations_or_correspondence": ctx.broken,
                        "how_to_rerun": f"cd {VERIF} && VERIF_SEED={ctx.seed} ./check {ctx.prop} --tier {ctx.tier}",
                        "replay_one": f"cd {VERIF} && ./check {ctx.prop} --replay {replay_path}"},
-                      f, indent=1, default=repr)
+                      f, indent=1, default=_safe)
         exit_code = 1
     n_obl = len(ctx.obligations)
     n_dis = sum(1 for o in ctx.obligations if o[1])
